@@ -108,6 +108,113 @@ fn churn_program(c: &mut Choices, heap_mb: i64) -> (String, String) {
     (src, format!("sum={sum} kept={}\n", keep.len()))
 }
 
+/// "Ageing" programs: a small pool of objects with three reference fields whose fields are re-pointed to fresh
+/// objects at generated moments between forced minor/full collections and bursts of garbage that push the
+/// allocation pointer into new young pages. Exercises survivor ageing, promotion with old-to-young references in
+/// any field position, the write barrier and the remembered set. The expected output is computed here by
+/// interpreting the same script.
+fn ageing_program(c: &mut Choices) -> (String, String) {
+    let k = 2 + c.below(6); // pool size
+    let nsteps = 20 + c.below(140);
+    let pad = *c.pick(&[0i64, 3, 40, 600]);
+    let mut body = String::new();
+    let mut expected = String::new();
+    // model: pool[i] = Some([a, b, c]) values (0 = None)
+    let mut pool: Vec<Option<[i64; 3]>> = vec![None; k];
+    let mut counter: i64 = 0;
+    let mut checks = 0;
+    for step in 0..nsteps {
+        match c.weighted(&[4, 8, 5, 1, 4, 3]) {
+            0 => {
+                let i = c.below(k);
+                let mut vals = [0i64; 3];
+                let mut args = vec![];
+                for f in 0..3 {
+                    if c.chance(2, 3) {
+                        counter += 1;
+                        vals[f] = counter;
+                        args.push(format!("Some[Q](Q(v = {counter}, pad = Array[Int64]::zero({pad})))"));
+                    } else {
+                        args.push("None[Q]".to_string());
+                    }
+                }
+                pool[i] = Some(vals);
+                body.push_str(&format!("    ps({i}) = Some[P](P(a = {}, b = {}, c = {}));\n", args[0], args[1], args[2]));
+            }
+            1 => {
+                let i = c.below(k);
+                if let Some(vals) = pool[i].as_mut() {
+                    let f = c.below(3);
+                    let fname = ["a", "b", "c"][f];
+                    if c.chance(5, 6) {
+                        counter += 1;
+                        vals[f] = counter;
+                        body.push_str(&format!("    ps({i}).get_or_panic().{fname} = Some[Q](Q(v = {counter}, pad = Array[Int64]::zero({pad})));\n"));
+                    } else {
+                        vals[f] = 0;
+                        body.push_str(&format!("    ps({i}).get_or_panic().{fname} = None[Q];\n"));
+                    }
+                }
+            }
+            2 => body.push_str("    std::force_minor_collect();\n"),
+            3 => body.push_str("    std::force_collect();\n"),
+            4 => {
+                let n = *c.pick(&[3000i64, 100, 20000, 1]);
+                body.push_str(&format!("    garbage({n});\n"));
+            }
+            _ => {
+                checks += 1;
+                let mut sum: i64 = 0;
+                for (i, p) in pool.iter().enumerate() {
+                    if let Some(v) = p {
+                        sum = (sum * 31 + (i as i64 + 1) * 7 + v[0] * 3 + v[1] * 5 + v[2] * 11) % 1_000_000_007;
+                    }
+                }
+                body.push_str(&format!("    println(\"check {step} ${{checksum(ps)}}\");\n"));
+                expected.push_str(&format!("check {step} {sum}\n"));
+            }
+        }
+    }
+    let _ = checks;
+    let mut sum: i64 = 0;
+    for (i, p) in pool.iter().enumerate() {
+        if let Some(v) = p {
+            sum = (sum * 31 + (i as i64 + 1) * 7 + v[0] * 3 + v[1] * 5 + v[2] * 11) % 1_000_000_007;
+        }
+    }
+    expected.push_str(&format!("final {sum}\n"));
+    let src = format!(
+        r#"class Q {{ v: Int64, pad: Array[Int64] }}
+class P {{ a: Option[Q], b: Option[Q], c: Option[Q] }}
+fn val(q: Option[Q]): Int64 {{ if q.is_some() {{ q.get_or_panic().v }} else {{ 0 }} }}
+fn checksum(ps: Array[Option[P]]): Int64 {{
+    let mut sum = 0;
+    let mut i = 0;
+    while i < ps.size() {{
+        if ps(i).is_some() {{
+            let p = ps(i).get_or_panic();
+            sum = (sum * 31 + (i + 1) * 7 + val(p.a) * 3 + val(p.b) * 5 + val(p.c) * 11) % 1000000007;
+        }}
+        i = i + 1;
+    }}
+    sum
+}}
+fn garbage(n: Int64) {{
+    let mut i = 0;
+    while i < n {{
+        Q(v = i, pad = Array[Int64]::zero(i % 7));
+        i = i + 1;
+    }}
+}}
+fn main() {{
+    let ps = Array[Option[P]]::fill({k}, None[P]);
+{body}    println("final ${{checksum(ps)}}");
+}}
+"#
+    );
+    (src, expected)
+}
+
 impl Prop for GcInvisible {
     type Case = GcCase;
     fn name(&self) -> &str {
@@ -116,7 +223,7 @@ impl Prop for GcInvisible {
     fn generate(&self, c: &mut Choices) -> GcCase {
         let backend = if c.chance(1, 2) { Backend::Cannon } else { Backend::Boots };
         let debug_runtime = c.chance(1, 4);
-        let kind = c.weighted(&[6, 3, 2]);
+        let kind = c.weighted(&[5, 3, 2, 4]);
         let n = 3 + c.below(2);
         let mut configs: Vec<GcConfig> = (0..n).map(|_| gen_config(c)).collect();
         // corpus programs may allocate a lot: no every-allocation stress there either
@@ -146,6 +253,30 @@ impl Prop for GcInvisible {
                 let all = CORPUS.get_or_init(|| crate::c02::corpus_cases(true).0.into_iter().filter(|c| c.expect_status.is_none() && c.args.is_empty()).collect());
                 let base = &all[c.below(all.len())];
                 GcCase { prog: ProgCase { source: base.source.clone(), expected: None, stats: vec![], features: vec![] }, label: base.label.clone(), backend, debug_runtime, configs, reclaim: None }
+            }
+            3 => {
+                let (src, out) = ageing_program(c);
+                // every-allocation stress is affordable (few thousand allocations at most outside `garbage`)
+                for cfg in configs.iter_mut() {
+                    if cfg.flags.contains("--gc-stress") && !cfg.flags.contains("--gc-stress-minor") && cfg.gc == "swiper" {
+                        cfg.flags = cfg.flags.replace("--gc-stress", "--gc-stress-minor");
+                    }
+                    if cfg.flags.contains("stress") {
+                        cfg.flags = cfg.flags.replace("--disable-tlab", "").replace("  ", " ").trim().to_string();
+                    }
+                }
+                // the generational collector is always among the configurations
+                if !configs.iter().any(|c| c.gc == "swiper") {
+                    configs[0] = GcConfig { gc: "swiper".into(), flags: c.pick_str(&["--gc-verify", "", "--gc-verify --gc-young-size=1M", "--gc-worker=2"]).into() };
+                }
+                GcCase {
+                    prog: ProgCase { source: src, expected: Some(crate::progen::interp::Expected { stdout: out, status: 0, message: None, kind: "exit" }), stats: vec![("forced-collection".into(), 1)], features: vec!["churn-loop".into()] },
+                    label: "ageing".into(),
+                    backend,
+                    debug_runtime,
+                    configs,
+                    reclaim: None,
+                }
             }
             _ => {
                 // reclamation: small heap, a reclaiming collector; stress only with TLABs (cost). Half of the cases use a very
@@ -295,12 +426,14 @@ pub fn main(mode: Mode) -> i32 {
                 println!("INCONCLUSIVE property=C03 the optimizing compiler could not be bootstrapped from this tree");
                 return 2;
             }
-            ctx.rule = "cases: a program x a generated list of 3-4 collector configurations x a code generator x (release|debug) runtime. programs: typed-generator programs in the allocation-heavy profile (churn loops allocating classes/arrays/tuples with strings/strings, forced full and minor collections at generated points, closures capturing references, old objects pointing to fresh ones) with the reference interpreter's expected result; runnable corpus programs; a parametrised churn program (linked nodes with payload arrays and strings, bounded live set <= 64 nodes, total allocation >= 20x the 32 MiB heap) with a closed-form expected result. configurations: gc in {swiper, copy, sweep, zero} x {-, --gc-stress, --gc-stress-minor} x --disable-tlab x --gc-worker in {1,2,8} x --gc-verify x young/heap sizes. oracle: every configuration gives the reference result (or, for corpus programs, the same result as the first configuration); no signal, no runtime-internal panic (covers --gc-verify failures and debug assertions); bounded-live-set programs never end in 'out of memory' under a reclaiming collector. non-trivial = case in which >= 2 reclaiming configurations ran a program that forces or provokes collections; distinct by (source, configurations, generator, runtime) hash".into();
+            ctx.rule = "cases: a program x a generated list of 3-4 collector configurations x a code generator x (release|debug) runtime. programs: typed-generator programs in the allocation-heavy profile (churn loops allocating classes/arrays/tuples with strings/strings, forced full and minor collections at generated points, closures capturing references, old objects pointing to fresh ones) with the reference interpreter's expected result; runnable corpus programs; a parametrised churn program (linked nodes with payload arrays and strings, bounded live set <= 64 nodes, total allocation >= 20x the 32 MiB heap) with a closed-form expected result (half of them on a 2-8 MiB heap where --disable-tlab is affordable, so free-list reuse and promotion under pressure occur); 'ageing' programs: a pool of 2-7 objects with three reference fields that are re-pointed to fresh objects at generated moments between forced minor/full collections and bursts of garbage (survivor ageing, promotion with old-to-young references in any field position, write barrier, remembered set), expected output computed by interpreting the same script. configurations: gc in {swiper, copy, sweep, zero} x {-, --gc-stress, --gc-stress-minor} x --disable-tlab x --gc-worker in {1,2,8} x --gc-verify x young/heap sizes. oracle: every configuration gives the reference result (or, for corpus programs, the same result as the first configuration); no signal, no runtime-internal panic (covers --gc-verify failures and debug assertions); bounded-live-set programs never end in 'out of memory' under a reclaiming collector. non-trivial = case in which >= 2 reclaiming configurations ran a program that forces or provokes collections; distinct by (source, configurations, generator, runtime) hash".into();
             ctx.assumptions = vec!["multi-threaded allocation is covered only through C09's workloads".into()];
             ctx.run_regressions(&p);
             ctx.run_known_reproducers(&p);
             let n = ctx.n(60, 1500);
             ctx.run_search(&p, n, 2700, 0);
+            ctx.require_class("gc-matrix/family:ageing");
+            ctx.require_class("gc-matrix/family:churn");
             ctx.require_class("gc-matrix/gc:swiper");
             ctx.require_class("gc-matrix/gc:copy");
             ctx.require_class("gc-matrix/gc:sweep");
